@@ -5,7 +5,7 @@ use std::sync::atomic::{AtomicU64, Ordering};
 
 use super::strs;
 use crate::alpha::{self, Rich};
-use crate::cmp::{self, cmp_flat, show};
+use crate::cmp::{self, show};
 use crate::core::*;
 use crate::model::*;
 use crate::subj;
@@ -104,7 +104,7 @@ fn fact(n: usize) -> usize {
 fn compare(base: &Exec, other: &Exec, what: &str, feats: &[&str], out: &mut Out) {
     out.compared += 1;
     let ratios = base.ratios && other.ratios;
-    let d = cmp_flat(&base.flat, &other.flat, subj::tol(base.mag), 1e-5, &|p| p.starts_with("rer") && !ratios, &|_, x| x);
+    let d = cmp::cmp_flat_m(&base.flat, &other.flat, subj::tol(base.mag), 1e-5, base.mag, other.mag, &|p| p.starts_with("rer") && !ratios, &|_, x| x);
     if !d.is_empty() {
         let (a, b) = show(&d);
         out.viol("same_results", feats, what, format!("rewritten / repeated: {b}"), format!("base: {a}"));
